@@ -716,8 +716,10 @@ class Inliner:
                     continue
                 exprs[p] = a
                 continue
+            if isinstance(a, ast.Name) and a.id == p and (p not in helper_stores or p in target_names):
+                continue            # the caller's variable of the same name simply carries on
             new = p
-            if p in caller_names and not (isinstance(a, ast.Name) and a.id == p):
+            if p in caller_names:
                 new = f"{p}__{_fresh()}"
                 renames[p] = new
             tgt = ast.Name(id=new, ctx=ast.Store())
@@ -737,13 +739,10 @@ class Inliner:
         block_id = _fresh()
         rw = _ReturnRewriter(target, block_id)
         rw.cont, rw.keep_returns = cont, keep_returns
-        if (cont is not None or keep_returns) and not _ends_in_return(body):
+        if (cont is not None or keep_returns or target is not None) and not _ends_in_return(body):
             body = body + [ast.copy_location(ast.Return(value=ast.Constant(value=None)), call)]     # falling off the end returns None
         new_body = rw.rewrite(body, True)
         need_block = rw.jumps > 0
-        if target is not None and cont is None and not keep_returns and isinstance(target, ast.Name) and not _ends_in_return(body):
-            # some path falls off the end of the helper: the call evaluates to None there
-            new_body.insert(0, ast.copy_location(ast.Assign(targets=[copy.deepcopy(target)], value=ast.Constant(value=None)), call))
         if not new_body:
             new_body = [ast.copy_location(ast.Pass(), call)]
         self.expanded += 1
